@@ -41,7 +41,7 @@ def run_panel(job):
         import cola
         from cola.linalg import Auto, Hutch
 
-        def estimate(key, tol=0.002):
+        def estimate(key, tol=cfg.get("tol", 0.002)):
             kw = dict(tol=tol, max_iters=mi, rand=rand, key=key)
             alg = Auto(**kw) if cfg.get("alg") == "Auto" else Hutch(**kw)
             stats["panel_calls"] += 1
